@@ -64,7 +64,7 @@ func checkDurable(base *LogBase, snap commitSnap, opts WorldOpts, aux *Rng) (wha
 			tw.Fail("panic while reading the reopened state", fmt.Sprint(r))
 		}
 	}()
-	openRoots(tw, snap.roots, snap.ids, func() atree.DigesterBuilder { return atree.NewDefaultDigesterBuilder() })
+	openRoots(tw, snap.roots, snap.ids, tw.Opts.RootDigester)
 	if what != "" {
 		return
 	}
